@@ -9,6 +9,14 @@ class Violation(Exception):
     pass
 
 
+def in_env(strategy, shard):
+    """Cases of a shard that runs in another process environment carry its name (replay needs it)."""
+    name = shard.get("env")
+    if not name:
+        return strategy
+    return strategy.map(lambda c: dict(c, env=name))
+
+
 def drive(ctx, kind, strategy, body, n, seed, shrink_budget=250, reset=True):
     """Run ``body`` on ``n`` cases drawn from ``strategy``.
 
